@@ -470,10 +470,10 @@ def run(ctx, replay=None):
         cases = directed_cases()
         cases += [gen_rs_twin(rng) for _ in range(ctx.n(120, 1200))]
         cases += [gen_gs_twin(rng) for _ in range(ctx.n(100, 1000))]
-        cases += [gen_gp_twin(rng) for _ in range(ctx.n(8, 60))]
-        cases += [gen_gp_twin(rng, nearly_exhausted=True) for _ in range(ctx.n(4, 20))]
+        cases += [gen_gp_twin(rng) for _ in range(ctx.n(20, 100))]
+        cases += [gen_gp_twin(rng, nearly_exhausted=True) for _ in range(ctx.n(6, 24))]
         for kind in DILL_KINDS:
-            cases += [gen_dill_case(rng, kind) for _ in range(ctx.n(3 if "bayesopt" in kind else 12, 120))]
+            cases += [gen_dill_case(rng, kind) for _ in range(ctx.n(6 if "bayesopt" in kind else 16, 40 if "bayesopt" in kind else 150))]
     rc_terms, rc_meta, gc_terms, gc_meta = [], [], [], []
     for case in cases:
         k = case["kind"]
